@@ -91,7 +91,10 @@ MUTANTS = {
     "c20_pooled_exception_swallowed": (["C20"], [("ccubes.py",
         "                pool.map(fill_one_cube, self.product())",
         "                def _guarded(sc):\n                    try:\n                        fill_one_cube(sc)\n                    except Exception:\n                        pass\n                pool.map(_guarded, self.product())")]),
-    "c20_regions_cached_on_cube": (["C20"], [("xcubes.py",
+    "c20_stop_flag_never_reset": (["C20"], [("ccubes.py",
+        "        def fill_one_cube(subcube_dims):\n            if self.check_interrupt is not None:\n                self.check_interrupt()\n",
+        "        def fill_one_cube(subcube_dims):\n            if self.check_interrupt is not None:\n                if getattr(self, \"_stop\", False):\n                    return\n                try:\n                    self.check_interrupt()\n                except Exception:\n                    self._stop = True\n                    raise\n")]),
+    "c20_xcube_regions_cached_between_calls": (["C17"], [("xcubes.py",
         "        results = [func.get_initial_regions(self) for func in funcs]\n        if self.debug:\n            print(\"INITIAL REGIONS:\")",
         "        key = tuple(id(f) for f in funcs)\n        if getattr(self, \"_cache_key\", None) != key:\n            self._cache_key = key\n            self._cache = [func.get_initial_regions(self) for func in funcs]\n        results = self._cache\n        if self.debug:\n            print(\"INITIAL REGIONS:\")")]),
     # ---- C17 -----------------------------------------------------------------
